@@ -34,12 +34,18 @@ def rule(rng, j):
 
 def gen_case(rng):
     ops = ["clock"]
-    ops.append("sys.load rules=" + ",".join(rule(rng, j) for j in range(rng.choice([1, 1, 2, 3]))))
+    rules = [rule(rng, j) for j in range(rng.choice([1, 1, 2, 3]))]
+    ops.append("sys.load rules=" + ",".join(rules))
     eid = 0
     open_ = []
     for _ in range(rng.randint(6, 40)):
         x = rng.random()
-        if x < 0.15:
+        if x < 0.04:
+            # the rules are replaced by rules with the SAME ids and other thresholds / strategies: the new ones decide from the
+            # next entry on (seed C09-e: rules compared equal because their ids were equal)
+            rules = [r.split(":")[0] + ":" + rule(rng, j).split(":", 1)[1] for j, r in enumerate(rules)]
+            ops.append("sys.load rules=" + ",".join(rules))
+        elif x < 0.15:
             ops.append("sys.set load=%s cpu=%s" % (rng.choice(FR), rng.choice(CPU)))
         elif x < 0.35:
             ops.append("adv ms=%d" % rng.choice([1, 50, 100, 200, 250, 400, 499, 500, 501, 1000, 1500]))
